@@ -13,12 +13,21 @@
   end tag and attribute name the run renders resolves, in exactly those declarations, to the
   node's name (for every tree whose elements declare no prefix twice, every start node).
   Names in the XML namespace are always written with the reserved `xml` prefix (/repo 061eba4).
-  Full strength is FALSE for elements (`C10_sound_Statement`): a no-namespace element inside the
-  scope of a default-namespace declaration is written unprefixed.
+  Element names hold at full strength since /repo a32c6f4: `render_output` refuses
+  (`MissingPrefix("")`) a no-namespace element inside the scope of a default-namespace declaration
+  instead of writing it unprefixed (`C10_sound`, `C10_sound_refused`).
+
+  Second and third sentence (`C10_repair_*`, `C10_iter`): `create_missing_prefixes` (Model/Repair, as
+  rewritten in /repo afee7b1) on an element of any tree whose elements declare no prefix twice: only
+  namespace nodes change (`_frame`), every name of the subtree is then writable by the serialiser
+  (`_writable`, via the serialiser's own check `namesWritable`), the prefixes added are bound nowhere
+  in scope of the element nor declared in its subtree (`_fresh_prefixes`), a second call is the
+  identity (`_idem`).
 -/
 import XotModel.Lemmas.FStack
 import XotModel.Lemmas.Scope10
 import XotModel.Lemmas.TraceInv
+import XotModel.Lemmas.RepairDoc
 
 namespace XotModel.Props
 open XotModel
@@ -84,20 +93,12 @@ theorem C10_resolve_lookup {fs : Frames} (hx : XmlPrefixReserved fs) {q ns : Nat
     simp [hx ns hl]
   · simp [hq, hl]
 
-/-- Full-strength statement for element names: whatever `element_prefix` answers resolves to the
-    name's namespace.  FALSE for the code as written (`C10_sound_false`). -/
-def C10_sound_Statement : Prop :=
-  ∀ (env : Env) (s : FStack) (fs : Frames) (name : Nat) (p : Option Nat),
-    StackInv s fs → XmlPrefixReserved fs → s.elementPrefix env name = .ok p →
-    resolveElementName fs p = some (env.nsOfName name)
-
-/-- `_partial`: true under the guard that excludes exactly the defect — a name in no namespace
-    while a default namespace is in scope.  Names in the XML namespace get the reserved `xml`
-    prefix whatever the stack holds. -/
-theorem C10_sound_partial (env : Env) (s : FStack) (fs : Frames) (name : Nat) (p : Option Nat)
+/-- The prefix `element_prefix` answers resolves to the name's namespace whenever the check of the
+    `StartTagOpen` arm passes (the name is not a no-namespace name while `has_default_namespace`).
+    Names in the XML namespace get the reserved `xml` prefix whatever the stack holds. -/
+theorem C10_sound_prefix (env : Env) (s : FStack) (fs : Frames) (name : Nat) (p : Option Nat)
     (hinv : StackInv s fs) (hx : XmlPrefixReserved fs) (h : s.elementPrefix env name = .ok p)
-    (guard : env.nsOfName name = Env.noNamespace →
-      (lookupFrames fs Env.emptyPrefix).getD Env.noNamespace = Env.noNamespace) :
+    (hcheck : ¬ (env.nsOfName name = Env.noNamespace ∧ s.hasDefaultNamespace = true)) :
     resolveElementName fs p = some (env.nsOfName name) := by
   obtain ⟨_, hflat⟩ := hinv.flat
   unfold FStack.elementPrefix at h
@@ -105,7 +106,15 @@ theorem C10_sound_partial (env : Env) (s : FStack) (fs : Frames) (name : Nat) (p
   · simp only [hns, if_true] at h
     cases h
     have hz : env.nsOfName name = Env.noNamespace := by simpa using hns
-    simp [resolveElementName, guard hz, hz]
+    have hnd : ¬ s.hasDefaultNamespace = true := fun hd => hcheck ⟨hz, hd⟩
+    rw [hasDefaultNamespace_iff hinv.flat] at hnd
+    simp only [resolveElementName, hz, Option.some.injEq]
+    cases hl : lookupFrames fs Env.emptyPrefix with
+    | none => rfl
+    | some n =>
+      by_cases hn : n = Env.noNamespace
+      · simp [hn]
+      · exact absurd ⟨n, hl, hn⟩ hnd
   · simp only [hns] at h
     by_cases hxml : (env.nsOfName name == Env.xmlNamespace) = true
     · simp only [hxml, if_true] at h
@@ -127,6 +136,43 @@ theorem C10_sound_partial (env : Env) (s : FStack) (fs : Frames) (name : Nat) (p
         · simp only [hq] at h
           cases h
           simpa [resolveElementName] using C10_resolve_lookup hx hl
+
+/-- Element names, FULL strength (no guard): whenever `render_output` renders a `StartTagOpen`, the
+    token is `<` + the qualified name built from a prefix that resolves — in the declarations of the
+    open elements, the element's own included — to the element's namespace.  In particular a name
+    in no namespace is written unprefixed only where no default namespace is in scope. -/
+theorem C10_sound (esc : Escapers) (env : Env) (pr : TokenParams) (s s' : FStack) (fs : Frames)
+    (node : Tree) (parent : Option Tree) (name : Nat) (tok : OutputToken)
+    (hinv : StackInv (s.push node.nsDecls) fs) (hx : XmlPrefixReserved fs)
+    (h : renderXmlWith esc env pr s node parent (.startTagOpen name) = .ok (s', tok)) :
+    ∃ p, (s.push node.nsDecls).elementPrefix env name = .ok p ∧ s' = s.push node.nsDecls ∧
+      tok = ⟨false, fmt Gen.fmtStartTagOpen [qname env p name]⟩ ∧
+      resolveElementName fs p = some (env.nsOfName name) := by
+  simp only [renderXmlWith] at h
+  split at h
+  · cases h
+  · rename_i hc
+    have hcheck : ¬ (env.nsOfName name = Env.noNamespace ∧
+        (s.push node.nsDecls).hasDefaultNamespace = true) := by
+      intro hh; apply hc; simp [hh.1, hh.2]
+    unfold FStack.elementFullname at h
+    cases hp : (s.push node.nsDecls).elementPrefix env name with
+    | error e => simp [hp] at h
+    | ok p =>
+      simp only [hp, Outcome.ok.injEq, Prod.mk.injEq] at h
+      exact ⟨p, rfl, h.1.symm, h.2.symm, C10_sound_prefix env _ fs name p hinv hx hp hcheck⟩
+
+/-- The other half: an element in no namespace whose scope (its own declarations included) binds
+    the empty prefix to a namespace is refused with `MissingPrefix("")`, not written. -/
+theorem C10_sound_refused (esc : Escapers) (env : Env) (pr : TokenParams) (s : FStack) (fs : Frames)
+    (node : Tree) (parent : Option Tree) (name n : Nat)
+    (hinv : StackInv (s.push node.nsDecls) fs) (hname : env.nsOfName name = Env.noNamespace)
+    (hl : lookupFrames fs Env.emptyPrefix = some n) (hn : n ≠ Env.noNamespace) :
+    renderXmlWith esc env pr s node parent (.startTagOpen name) =
+      .err (.missingPrefix Env.noNamespace) := by
+  have hd : (s.push node.nsDecls).hasDefaultNamespace = true :=
+    (hasDefaultNamespace_iff hinv.flat).mpr ⟨n, hl, hn⟩
+  simp [renderXmlWith, hname, hd]
 
 /-- Attribute names: full strength, no guard — the chosen prefix resolves to the attribute's
     namespace, and an attribute is written unprefixed only when it is in no namespace. -/
@@ -155,15 +201,6 @@ theorem C10_sound_attribute (env : Env) (s : FStack) (fs : Frames) (name : Nat) 
         simp only [hp] at h
         cases h
         exact ⟨by simpa [resolveAttributeName] using C10_resolve_lookup hx hl, by simpa using hne⟩
-
-/-- The defect as a closed witness: name 0 in no namespace (`names = [("b", 0)]`), scope
-    `xmlns = namespace 2`: `element_prefix` answers "unprefixed", which resolves to namespace 2. -/
-theorem C10_sound_false : ¬ C10_sound_Statement := by
-  intro h
-  have := h ⟨[], [], [(['b'], 0)]⟩ (FStack.new [(0, 2)]) [[(0, 2)]] 0 none
-    (StackInv.base _ (by unfold UniquePrefixes; decide)) (by intro n hn; simp [lookupFrames, List.lookup, Env.xmlPrefix] at hn) rfl
-  revert this
-  decide
 
 /-! ### Errors: exactly when no usable prefix is in scope -/
 
@@ -242,26 +279,23 @@ theorem C10_stack_traversal (esc : Escapers) (env : Env) (pr : TokenParams) (t :
     (s : FStack) (p : Path) (o : Output)
     (hx : (s, p, o) ∈ stackTrace esc env pr t (initStack t start) (genOutputs t start)) :
     ∃ rel, p = start ++ rel ∧ StackInv s (framesFor o (framesAlong n rel) ++ [inScope]) :=
-  genOutputs_trace esc env pr t start n inScope hat hs hu (s, p, o) hx
+  (genOutputs_trace esc env pr t start n inScope hat hs hu (s, p, o) hx).1
 
-/-- Start tags of the run: the prefix `render_output` uses for `<name` (chosen after pushing the
-    element's own declarations) resolves, in the declarations of the open elements, to the
-    element's namespace — under the guard excluding the no-namespace-under-default defect. -/
-theorem C10_sound_tree_partial (esc : Escapers) (env : Env) (pr : TokenParams) (t : Tree) (start : Path)
+/-- Start tags of the run, full strength: every `StartTagOpen` event the run renders is written
+    with a prefix that resolves, in the declarations of the open elements (the element's own
+    included), to the element's namespace. -/
+theorem C10_sound_tree (esc : Escapers) (env : Env) (pr : TokenParams) (t : Tree) (start : Path)
     (n : Tree) (inScope : List (Nat × Nat)) (hat : t.at? start = some n)
     (hs : namespacesInScope t start = some inScope) (hu : UniqueBelow n)
-    (s : FStack) (p : Path) (name : Nat) (node : Tree) (pfx : Option Nat)
+    (s s' : FStack) (p : Path) (name : Nat) (node : Tree)
     (hx : (s, p, .startTagOpen name) ∈ stackTrace esc env pr t (initStack t start) (genOutputs t start))
     (hnode : t.at? p = some node)
-    (hpfx : (s.push node.nsDecls).elementPrefix env name = .ok pfx) :
-    ∃ rel, p = start ++ rel ∧
+    (hstep : stepStack esc env pr t s (p, .startTagOpen name) = some s') :
+    ∃ rel pfx, p = start ++ rel ∧ (s.push node.nsDecls).elementPrefix env name = .ok pfx ∧
       (XmlPrefixReserved (framesAlong n rel ++ [inScope]) →
-        (env.nsOfName name = Env.noNamespace →
-          (lookupFrames (framesAlong n rel ++ [inScope]) Env.emptyPrefix).getD Env.noNamespace = Env.noNamespace) →
         resolveElementName (framesAlong n rel ++ [inScope]) pfx = some (env.nsOfName name)) := by
-  obtain ⟨rel, hp, hinv⟩ := genOutputs_trace esc env pr t start n inScope hat hs hu _ hx
+  obtain ⟨⟨rel, hp, hinv⟩, _⟩ := genOutputs_trace esc env pr t start n inScope hat hs hu _ hx
   simp only at hp hinv
-  refine ⟨rel, hp, fun hxr guard => ?_⟩
   have hrel : n.at? rel = some node := by
     have := hnode
     rw [hp, at?_append, hat] at this
@@ -279,13 +313,31 @@ theorem C10_sound_tree_partial (esc : Escapers) (env : Env) (pr : TokenParams) (
   have hframe : frameOf node = node.nsDecls := by simp [frameOf, hval]
   obtain ⟨rest, hfr⟩ := framesAlong_head n rel node hrel
   have hun : UniquePrefixes node.nsDecls := by rw [← hframe]; exact hu rel node hrel
-  rw [hfr, hframe] at hinv guard hxr ⊢
+  rw [hfr, hframe] at hinv
   simp only [framesFor, List.tail_cons] at hinv
   have hinv' := hinv.push' hun
-  exact C10_sound_partial env _ _ name pfx hinv' (by simpa using hxr) hpfx (by simpa using guard)
+  obtain ⟨node', tok, hn', hr⟩ := stepStack_some esc env pr t s s' p _ hstep
+  rw [hnode] at hn'
+  cases hn'
+  -- without the reserved-prefix hypothesis the prefix is still the one `element_prefix` answers
+  have hpre : ∃ pfx, (s.push node.nsDecls).elementPrefix env name = .ok pfx ∧
+      ¬ (env.nsOfName name = Env.noNamespace ∧ (s.push node.nsDecls).hasDefaultNamespace = true) := by
+    simp only [renderXmlWith] at hr
+    split at hr
+    · cases hr
+    · rename_i hc
+      unfold FStack.elementFullname at hr
+      cases hpq : (s.push node.nsDecls).elementPrefix env name with
+      | error e => simp [hpq] at hr
+      | ok q => exact ⟨q, rfl, fun hh => hc (by simp [hh.1, hh.2])⟩
+  obtain ⟨pfx, hpfx, hcheck⟩ := hpre
+  refine ⟨rel, pfx, hp, hpfx, fun hxr => ?_⟩
+  rw [hfr, hframe] at hxr ⊢
+  exact C10_sound_prefix env _ _ name pfx hinv' (by simpa using hxr) hpfx hcheck
 
-/-- End tags of the run resolve the same way (same guard). -/
-theorem C10_sound_tree_endtag_partial (esc : Escapers) (env : Env) (pr : TokenParams) (t : Tree)
+/-- End tags of the run, full strength: an `EndTag` event is only reached after the element's
+    `StartTagOpen` was rendered with the same stack, so the name it writes resolves the same way. -/
+theorem C10_sound_tree_endtag (esc : Escapers) (env : Env) (pr : TokenParams) (t : Tree)
     (start : Path) (n : Tree) (inScope : List (Nat × Nat)) (hat : t.at? start = some n)
     (hs : namespacesInScope t start = some inScope) (hu : UniqueBelow n)
     (s : FStack) (p : Path) (name : Nat) (pfx : Option Nat)
@@ -293,12 +345,10 @@ theorem C10_sound_tree_endtag_partial (esc : Escapers) (env : Env) (pr : TokenPa
     (hpfx : s.elementPrefix env name = .ok pfx) :
     ∃ rel, p = start ++ rel ∧
       (XmlPrefixReserved (framesAlong n rel ++ [inScope]) →
-        (env.nsOfName name = Env.noNamespace →
-          (lookupFrames (framesAlong n rel ++ [inScope]) Env.emptyPrefix).getD Env.noNamespace = Env.noNamespace) →
         resolveElementName (framesAlong n rel ++ [inScope]) pfx = some (env.nsOfName name)) := by
-  obtain ⟨rel, hp, hinv⟩ := genOutputs_trace esc env pr t start n inScope hat hs hu _ hx
+  obtain ⟨⟨rel, hp, hinv⟩, hend⟩ := genOutputs_trace esc env pr t start n inScope hat hs hu _ hx
   simp only [framesFor] at hp hinv
-  exact ⟨rel, hp, fun hxr guard => C10_sound_partial env _ _ name pfx hinv hxr hpfx guard⟩
+  exact ⟨rel, hp, fun hxr => C10_sound_prefix env _ _ name pfx hinv hxr hpfx (hend name rfl)⟩
 
 /-- Attribute names of the run: full strength — the prefix used resolves to the attribute's
     namespace in the declarations of the open elements (its own element included). -/
@@ -311,9 +361,246 @@ theorem C10_sound_tree_attribute (esc : Escapers) (env : Env) (pr : TokenParams)
     ∃ rel, p = start ++ rel ∧
       (XmlPrefixReserved (framesAlong n rel ++ [inScope]) →
         resolveAttributeName (framesAlong n rel ++ [inScope]) pfx = some (env.nsOfName name)) := by
-  obtain ⟨rel, hp, hinv⟩ := genOutputs_trace esc env pr t start n inScope hat hs hu _ hx
+  obtain ⟨⟨rel, hp, hinv⟩, _⟩ := genOutputs_trace esc env pr t start n inScope hat hs hu _ hx
   simp only [framesFor] at hp hinv
   exact ⟨rel, hp, fun hxr => (C10_sound_attribute env _ _ name pfx hinv hxr hpfx).1⟩
+
+/-! ## `create_missing_prefixes` (second and third sentence of the property) -/
+
+section Repair
+open XotModel.Repair
+
+/-- On an element the call is `create_missing_prefixes_for_element`. -/
+theorem C10_repair_element (env : Env) (t : Tree) (path : Path) (name : Nat) (ks : List Tree)
+    (hat : t.at? path = some (.node (.element name) ks)) :
+    createMissingPrefixes env t path = repairElement env t path := by
+  simp [createMissingPrefixes, hat, Tree.value, Value.isDocument, Value.isElement]
+
+/-- Anything that is neither a document nor an element is refused, a document without element
+    child too, and nothing changes (the result carries no tree). -/
+theorem C10_repair_refused (env : Env) (t : Tree) (path : Path) (node : Tree) (hat : t.at? path = some node) :
+    (node.value.isDocument = false → node.value.isElement = false →
+      createMissingPrefixes env t path = .err .notElement) ∧
+    (node.value.isDocument = true → elementKidIndices node.kids = [] →
+      createMissingPrefixes env t path = .err .noElementAtTopLevel) := by
+  constructor
+  · intro h1 h2; simp [createMissingPrefixes, hat, h1, h2]
+  · intro h1 h2; simp [createMissingPrefixes, hat, h1, h2]
+
+/-- FRAME: the call changes namespace nodes only — the tree without its namespace nodes (every
+    node's value, i.e. element names, attribute names and values, text, comments, PIs, and the
+    order of everything) is the same before and after; names and namespaces keep their ids. -/
+theorem C10_repair_frame (env : Env) (hok : EnvOk env) (t : Tree) (path : Path) (name : Nat)
+    (ks : List Tree) (hat : t.at? path = some (.node (.element name) ks))
+    (hu : UniqueBelow (.node (.element name) ks)) (env' : Env) (t' : Tree)
+    (h : createMissingPrefixes env t path = .ok (env', t')) :
+    stripNs t' = stripNs t ∧ env'.names = env.names ∧ env'.namespaces = env.namespaces := by
+  rw [C10_repair_element env t path name ks hat] at h
+  have hf := repairElement_facts env hok t path name ks hat hu env' t' h
+  exact ⟨facts_frame hat hf, hf.names, hf.namespaces⟩
+
+/-- WRITABLE: after the call the serialiser finds a usable prefix for every element and attribute
+    name of the subtree, and meets no no-namespace element under a default namespace:
+    `namesWritable` — the `MissingPrefix` checks of `render_output` run over the subtree with the
+    name stack `XmlSerializer::new` builds — answers `true`. -/
+theorem C10_repair_writable (env : Env) (hok : EnvOk env) (t : Tree) (path : Path) (name : Nat)
+    (ks : List Tree) (hat : t.at? path = some (.node (.element name) ks))
+    (hu : UniqueBelow (.node (.element name) ks)) (env' : Env) (t' : Tree)
+    (h : createMissingPrefixes env t path = .ok (env', t')) :
+    namesWritable env' t' path = some true := by
+  rw [C10_repair_element env t path name ks hat] at h
+  exact facts_writable hat (repairElement_facts env hok t path name ks hat hu env' t' h)
+
+/-- FRESH PREFIXES: the declarations of the repaired element after the call are its old ones plus
+    a list `nd` of new `(prefix, namespace)` pairs (plus `xmlns=""`, replacing its own default
+    declaration, when the element is in no namespace under a default namespace); the new prefixes
+    are pairwise different, not the empty prefix, bound NOWHERE in scope of the element and declared
+    NOWHERE in its subtree — so no binding that a name depends on is overridden or shadowed. -/
+theorem C10_repair_fresh_prefixes (env : Env) (hok : EnvOk env) (t : Tree) (path : Path) (name : Nat)
+    (ks : List Tree) (hat : t.at? path = some (.node (.element name) ks))
+    (hu : UniqueBelow (.node (.element name) ks)) (env' : Env) (t' : Tree)
+    (h : createMissingPrefixes env t path = .ok (env', t')) :
+    ∃ (nd : List (Nat × Nat)) (E' : Tree), t'.at? path = some E' ∧
+      (∀ q m, (q, m) ∈ E'.nsDecls ↔
+        if needsUndeclare env.nsOfName (inheritedDecls t path) (.node (.element name) ks) name = true then
+          (q ≠ Env.emptyPrefix ∧ ((q, m) ∈ (Tree.node (.element name) ks).nsDecls ∨ (q, m) ∈ nd)) ∨
+            (q = Env.emptyPrefix ∧ m = Env.noNamespace)
+        else (q, m) ∈ (Tree.node (.element name) ks).nsDecls ∨ (q, m) ∈ nd) ∧
+      (nd.map Prod.fst).Nodup ∧ (∀ d ∈ nd, d.1 ≠ Env.emptyPrefix) ∧
+      (∀ p ∈ nd.map Prod.fst, ∀ scope, namespacesInScope t path = some scope → p ∉ scope.map Prod.fst) ∧
+      (∀ p ∈ nd.map Prod.fst, ∀ rel y nm, (Tree.node (.element name) ks).at? rel = some y →
+        y.value = .element nm → p ∉ y.nsDecls.map Prod.fst) := by
+  rw [C10_repair_element env t path name ks hat] at h
+  have hf := repairElement_facts env hok t path name ks hat hu env' t' h
+  obtain ⟨nd, hat', _, h2, h3, h4, h5, _⟩ := hf.nd
+  refine ⟨nd, _, hat', ?_, h2, h3, ?_, h5⟩
+  · intro q m
+    exact mem_nsDecls_rebuild_top env.nsOfName nd name ks _ (uniqueBelow_self hu) h2
+      (fun p hp => h5 p hp [] _ name rfl rfl) q m
+  · intro p hp scope hs
+    have := h4 p hp
+    rwa [hs] at this
+
+/-- IDEMPOTENT: a second call returns the same tree and registers no prefix. -/
+theorem C10_repair_idem (env : Env) (hok : EnvOk env) (t : Tree) (path : Path) (name : Nat)
+    (ks : List Tree) (hat : t.at? path = some (.node (.element name) ks))
+    (hu : UniqueBelow (.node (.element name) ks)) (env' : Env) (t' : Tree)
+    (h : createMissingPrefixes env t path = .ok (env', t')) :
+    createMissingPrefixes env' t' path = .ok (env', t') := by
+  rw [C10_repair_element env t path name ks hat] at h
+  have hf := repairElement_facts env hok t path name ks hat hu env' t' h
+  obtain ⟨nd, hat', _⟩ := hf.nd
+  have hv : (rebuild env.nsOfName nd true (inheritedDecls t path) (.node (.element name) ks)).value =
+      .element name := by rw [value_rebuild]; rfl
+  generalize rebuild env.nsOfName nd true (inheritedDecls t path) (.node (.element name) ks) = E' at hat' hv
+  cases E' with
+  | node v' ks' =>
+    simp only [Tree.value] at hv
+    subst hv
+    rw [C10_repair_element env' t' path name ks' hat']
+    exact facts_idem hat hf
+
+/-- The call keeps the hypothesis of all these theorems: no element of the tree declares a prefix
+    twice, and the empty prefix keeps id 0 — so the call can be repeated, anywhere. -/
+theorem C10_repair_keeps_unique (env : Env) (hok : EnvOk env) (t : Tree) (path : Path) (name : Nat)
+    (ks : List Tree) (hat : t.at? path = some (.node (.element name) ks)) (hu : UniqueBelow t)
+    (env' : Env) (t' : Tree) (h : createMissingPrefixes env t path = .ok (env', t')) :
+    EnvOk env' ∧ UniqueBelow t' := by
+  rw [C10_repair_element env t path name ks hat] at h
+  have hsub : UniqueBelow (.node (.element name) ks) := by
+    intro rel n' hn
+    exact hu (path ++ rel) n' (by rw [at?_append, hat]; exact hn)
+  have hf := repairElement_facts env hok t path name ks hat hsub env' t' h
+  exact ⟨hf.envOk, facts_unique hat hf hu⟩
+
+/-! ### Documents and fragments: every element child is repaired, in order -/
+
+/-- FRAME for a document or fragment (any number of top-level elements): only namespace nodes
+    change; the hypotheses of the theorems are kept. -/
+theorem C10_repair_document_frame (env : Env) (hok : EnvOk env) (t : Tree) (path : Path) (doc : Tree)
+    (hat : t.at? path = some doc) (hdoc : doc.value.isDocument = true)
+    (hu : ∀ (i : Nat) (k : Tree), doc.kids[i]? = some k → k.value.isElement = true → UniqueBelow k)
+    (env' : Env) (t' : Tree) (h : createMissingPrefixes env t path = .ok (env', t')) :
+    stripNs t' = stripNs t ∧ env'.names = env.names ∧ env'.namespaces = env.namespaces ∧
+      EnvOk env' ∧ (UniqueBelow t → UniqueBelow t') := by
+  have hf := document_facts env hok t path doc hat hdoc hu env' t' h
+  exact ⟨hf.frame, hf.names, hf.namespaces, hf.envOk, hf.unique⟩
+
+/-- WRITABLE for a document or fragment whose children other than elements are leaves (text,
+    comments, processing instructions): after the call `namesWritable` answers `true` for the
+    document node — every top-level element was repaired and stays repaired while its siblings are. -/
+theorem C10_repair_document_writable (env : Env) (hok : EnvOk env) (t : Tree) (path : Path) (doc : Tree)
+    (hat : t.at? path = some doc) (hdoc : doc.value.isDocument = true)
+    (hu : ∀ (i : Nat) (k : Tree), doc.kids[i]? = some k → k.value.isElement = true → UniqueBelow k)
+    (hleaf : ∀ (i : Nat) (k : Tree), doc.kids[i]? = some k → k.value.isElement = false → k.kids = [])
+    (env' : Env) (t' : Tree) (h : createMissingPrefixes env t path = .ok (env', t')) :
+    namesWritable env' t' path = some true :=
+  docFacts_writable doc hat hdoc hleaf (document_facts env hok t path doc hat hdoc hu env' t' h)
+
+/-- Every top-level element is repaired by its own `create_missing_prefixes_for_element` call, to
+    which `C10_repair_fresh_prefixes` applies: the loop of the document branch is the sequence of
+    those calls, each on the tree the previous one left (and an element-less document is refused). -/
+theorem C10_repair_document_calls (env : Env) (t : Tree) (path : Path) (doc : Tree)
+    (hat : t.at? path = some doc) (hdoc : doc.value.isDocument = true) (env' : Env) (t' : Tree)
+    (h : createMissingPrefixes env t path = .ok (env', t')) :
+    elementKidIndices doc.kids ≠ [] ∧
+      repairElements (elementKidIndices doc.kids) path env t = .ok (env', t') :=
+  createMissingPrefixes_document env t path doc hat hdoc env' t' h
+
+/-- IDEMPOTENT for a document or fragment. -/
+theorem C10_repair_document_idem (env : Env) (hok : EnvOk env) (t : Tree) (path : Path) (doc : Tree)
+    (hat : t.at? path = some doc) (hdoc : doc.value.isDocument = true)
+    (hu : ∀ (i : Nat) (k : Tree), doc.kids[i]? = some k → k.value.isElement = true → UniqueBelow k)
+    (env' : Env) (t' : Tree) (h : createMissingPrefixes env t path = .ok (env', t')) :
+    createMissingPrefixes env' t' path = .ok (env', t') :=
+  docFacts_idem doc hat hdoc (createMissingPrefixes_document env t path doc hat hdoc env' t' h).1
+    (document_facts env hok t path doc hat hdoc hu env' t' h)
+
+/-- States reachable by histories that alternate arbitrary edits — the tree and the interning tables
+    are replaced by any tree whose elements declare no prefix twice (nodes in new namespaces added,
+    subtrees moved or cloned away from their declarations, declarations added or removed: whatever
+    the editing API produces) — with successful `create_missing_prefixes` calls on elements. -/
+inductive RepairReachable : Env × Tree → Prop
+  | edit (env : Env) (t : Tree) : EnvOk env → UniqueBelow t → RepairReachable (env, t)
+  | repair (env : Env) (t : Tree) (path : Path) (name : Nat) (ks : List Tree) (env' : Env) (t' : Tree) :
+      RepairReachable (env, t) → t.at? path = some (.node (.element name) ks) →
+      createMissingPrefixes env t path = .ok (env', t') → RepairReachable (env', t')
+  | repairDocument (env : Env) (t : Tree) (path : Path) (doc : Tree) (env' : Env) (t' : Tree) :
+      RepairReachable (env, t) → t.at? path = some doc → doc.value.isDocument = true →
+      createMissingPrefixes env t path = .ok (env', t') → RepairReachable (env', t')
+
+/-- ITERATION, invariant: however often nodes are added and the call is repeated, the state meets
+    the hypotheses of the per-call theorems again. -/
+theorem C10_iter_invariant (s : Env × Tree) (h : RepairReachable s) : EnvOk s.1 ∧ UniqueBelow s.2 := by
+  induction h with
+  | edit env t hok hu => exact ⟨hok, hu⟩
+  | repair env t path name ks env' t' _ hat hcall ih =>
+    exact C10_repair_keeps_unique env ih.1 t path name ks hat ih.2 env' t' hcall
+  | repairDocument env t path doc env' t' _ hat hdoc hcall ih =>
+    have hu : ∀ (i : Nat) (k : Tree), doc.kids[i]? = some k → k.value.isElement = true → UniqueBelow k := by
+      intro i k hk _ rel n' hn
+      exact ih.2 (path ++ i :: rel) n' (by
+        rw [at?_append, hat]
+        cases doc with
+        | node v ks => simp only [Tree.kids] at hk; simp only [Option.bind_some]; rw [at?_cons, hk]; exact hn)
+    have := C10_repair_document_frame env ih.1 t path doc hat hdoc hu env' t' hcall
+    exact ⟨this.2.2.2.1, this.2.2.2.2 ih.2⟩
+
+/-- ITERATION: in every reachable state, every successful call on an element leaves names,
+    attributes and content alone, makes every name of the subtree writable, is the identity when
+    repeated, and leads to a reachable state again. -/
+theorem C10_iter (s : Env × Tree) (h : RepairReachable s) (path : Path) (name : Nat) (ks : List Tree)
+    (hat : s.2.at? path = some (.node (.element name) ks)) (env' : Env) (t' : Tree)
+    (hcall : createMissingPrefixes s.1 s.2 path = .ok (env', t')) :
+    stripNs t' = stripNs s.2 ∧ namesWritable env' t' path = some true ∧
+      createMissingPrefixes env' t' path = .ok (env', t') ∧ RepairReachable (env', t') := by
+  obtain ⟨hok, hu⟩ := C10_iter_invariant s h
+  have hsub : UniqueBelow (.node (.element name) ks) := by
+    intro rel n' hn
+    exact hu (path ++ rel) n' (by rw [at?_append, hat]; exact hn)
+  obtain ⟨env, t⟩ := s
+  exact ⟨(C10_repair_frame env hok t path name ks hat hsub env' t' hcall).1,
+    C10_repair_writable env hok t path name ks hat hsub env' t' hcall,
+    C10_repair_idem env hok t path name ks hat hsub env' t' hcall,
+    RepairReachable.repair env t path name ks env' t' h hat hcall⟩
+
+/-- ITERATION, documents and fragments: the same for calls on a document node of a reachable
+    state (writability under the leaf hypothesis on the non-element children). -/
+theorem C10_iter_document (s : Env × Tree) (h : RepairReachable s) (path : Path) (doc : Tree)
+    (hat : s.2.at? path = some doc) (hdoc : doc.value.isDocument = true) (env' : Env) (t' : Tree)
+    (hcall : createMissingPrefixes s.1 s.2 path = .ok (env', t')) :
+    stripNs t' = stripNs s.2 ∧
+      ((∀ (i : Nat) (k : Tree), doc.kids[i]? = some k → k.value.isElement = false → k.kids = []) →
+        namesWritable env' t' path = some true) ∧
+      createMissingPrefixes env' t' path = .ok (env', t') ∧ RepairReachable (env', t') := by
+  obtain ⟨hok, hu⟩ := C10_iter_invariant s h
+  obtain ⟨env, t⟩ := s
+  have hu' : ∀ (i : Nat) (k : Tree), doc.kids[i]? = some k → k.value.isElement = true → UniqueBelow k := by
+    intro i k hk _ rel n' hn
+    exact hu (path ++ i :: rel) n' (by
+      rw [at?_append, hat]
+      cases doc with
+      | node v ks => simp only [Tree.kids] at hk; simp only [Option.bind_some]; rw [at?_cons, hk]; exact hn)
+  exact ⟨(C10_repair_document_frame env hok t path doc hat hdoc hu' env' t' hcall).1,
+    fun hleaf => C10_repair_document_writable env hok t path doc hat hdoc hu' hleaf env' t' hcall,
+    C10_repair_document_idem env hok t path doc hat hdoc hu' env' t' hcall,
+    RepairReachable.repairDocument env t path doc env' t' h hat hdoc hcall⟩
+
+/-- Non-vacuity: `<{ns2}a xmlns="ns3" {ns3}x="v"><b/><n0:c xmlns:n0="ns2"/></a>` (b in no namespace,
+    c in ns2): the element and the attribute get new prefixes (n0, id 5, is declared below, so n1 and
+    a newly registered n2 are used), `b` gets `xmlns=""`, and the result is writable. -/
+example :
+    let env : Env := ⟨[[], ['x'], ['u'], ['v']], [[], ['x','m','l'], ['p'], ['q'], ['r'], ['n','0'], ['n','1']],
+      [(['a'], 2), (['x'], 3), (['b'], 0), (['c'], 2)]⟩
+    let t : Tree := .node .document [.node (.element 0) [.node (.namespace 0 3) [], .node (.attribute 1 ['v']) [],
+      .node (.element 2) [], .node (.element 3) [.node (.namespace 5 2) []]]]
+    (match createMissingPrefixes env t [0] with
+      | .ok (env', t') => (env'.prefixes.length, (t'.at? [0]).map Tree.nsDecls,
+          (t'.at? [0, 4]).map Tree.nsDecls, namesWritable env t [0], namesWritable env' t' [0])
+      | _ => (0, none, none, none, none)) =
+    (8, some [(0, 3), (6, 2), (7, 3)], some [(0, 0)], some false, some true) := by decide
+
+end Repair
 
 /-- Non-vacuity: `<a xmlns:p="2"><p:b/></a>`-like scope — name 0 = `b` in namespace 2, prefix 5
     bound to it two frames up, an unrelated frame in between. -/
@@ -321,6 +608,14 @@ example : resolveElementName [[(4, 3)], [], [(5, 2)]] (some 5) = some 2 := by de
 example : (FStack.new [(5, 2)]).elementPrefix ⟨[], [], [(['b'], 2)]⟩ 0 = .ok (some 5) := rfl
 /-- `xml:lang` (namespace 1) with another prefix bound to the XML namespace: the `xml` prefix is used. -/
 example : (FStack.new [(1, 1), (2, 1)]).attributePrefix ⟨[], [], [(['l'], 1)]⟩ 0 = .ok (some 1) := rfl
+
+/-- `<a xmlns="ns2"><b/></a>` with `b` in no namespace: the start tag of `b` is refused; with
+    `xmlns=""` on `b` it is written unprefixed. -/
+example : renderXml ⟨[], [], [(['b'], 0)]⟩ {} [[(0, 2)]] (.node (.element 0) []) none (.startTagOpen 0)
+    = .err (.missingPrefix 0) := rfl
+example : (renderXml ⟨[], [], [(['b'], 0)]⟩ {} [[(0, 2)]]
+      (.node (.element 0) [.node (.namespace 0 0) []]) none (.startTagOpen 0)).okValue?.map (·.1)
+    = some [[(0, 0)], [(0, 2)]] := rfl
 
 /-- Non-vacuity of the tree-level theorems: in `<a xmlns:p5="ns2"><b/></a>` (both names in
     namespace 2) the run reaches `<b` holding the stack `[[xml, p5↦2], [xml]]`; `b` is written with
